@@ -8,6 +8,10 @@ use vstd::prelude::*;
 // the imports of the source files the items come from (path spelling is not semantics)
 use core::marker::PhantomData;
 use core::ops::{Bound, ControlFlow};
+// path spellings of the source files (`deser::Error`, `ser::Result`, ...) resolve inside the
+// unit as they do in the crate: a change that merely writes a path differently stays decidable
+mod deser { pub use super::{Error, Result}; }
+mod ser { pub use super::SError as Error; pub use super::SResult as Result; }
 verus! {
 
 global size_of usize == 8;
